@@ -170,12 +170,73 @@ def reindex_rules(run: Run, model: PyModel, rids: dict[str, str]) -> None:
     run.floor("abstract runs of reindex_database", n, 1)
 
 
+def event_handlers(model: PyModel, event: str) -> list:
+    """Qualified names of the handlers registered for an event class in messagebus.EVENT_HANDLERS."""
+    import ast
+
+    mb = model.module_of("zorg.service.messagebus")
+    tab = mb.assigns.get("EVENT_HANDLERS")
+    out = []
+    if isinstance(tab, ast.Dict):
+        for k, v in zip(tab.keys, tab.values):
+            if k is not None and ast.unparse(k).split(".")[-1] == event:
+                out = [model.resolve_expr(mb, e) for e in (v.elts if isinstance(v, (ast.List, ast.Tuple)) else [v])]
+    return [h for h in out if h]
+
+
+def writeback_line(model: PyModel, event: str, line: str, note_fields: dict, notes_field: str, probes=None):
+    """The registered handler of `event` (NewZorgNotesEvent / ModifiedZorgNotesEvent) run over a virtual one-note page whose first line is
+    `line`: returns (new first line | None, reason).  Whatever helper rewrites the line - named, inlined, moved to another module - is
+    reached through the handler, not looked up by name."""
+    from .absval import HObj, Term
+    from .virtual import vpath
+
+    hs = event_handlers(model, event)
+    if len(hs) != 1:
+        return None, f"{event} has {len(hs)} registered handlers"
+    body = note_fields.get("body", "")
+    rest = body.split("\n")[1:] if isinstance(body, str) else []
+    content = "\n".join([line] + rest) + "\n"
+    W = World(model, files={"A.zo": "hA"}, old_map={"A.zo": "hA0"}, indexed={"A.zo"}, errors=set(), whitelist=[""], contents={"/Z/A.zo": content})
+
+    def build(st):
+        f = dict(line_no=1, modify_date=Term("marker:D", ()), create_date=Term("marker:D", ()), todo_payload=None, file_path=None, block=None)
+        f.update(note_fields)
+        note = st.alloc(HObj("obj", cls="zorg.domain.models._page.Note", fields=f))
+        return {"zorg_page_path": vpath("/Z/A.zo"), notes_field: st.alloc(HObj("list", items=[note]))}
+
+    try:
+        res = W.run(hs[0], {}, build=build, probes=probes)
+    except Exception as e:
+        return None, f"cannot interpret {hs[0].split('.')[-1]} abstractly: {type(e).__name__}: {str(e)[:120]}"
+    outs = []
+    for v, trace, imprecise in res:
+        if isinstance(v, Raised):
+            return None, f"{line!r}: raises {v.exc}"
+        if imprecise:
+            return None, f"{line!r}: " + "; ".join(imprecise[:2])
+        wr = [t for t in trace if t[0] == "write_text" and t[1] == "/Z/A.zo"]
+        if len(wr) != 1 or not isinstance(wr[0][2], str):
+            return None, f"{line!r}: {len(wr)} page writes"
+        new = wr[0][2].split("\n")
+        if new[1:] != content.split("\n")[1:]:
+            return None, f"{line!r}: lines below the first one changed"
+        outs.append(new[0])
+    if len(set(outs)) != 1:
+        return None, f"{line!r}: {len(set(outs))} abstract outcomes"
+    return outs[0], ""
+
+
 def writeback_rules(run: Run, model: PyModel, rid: str) -> None:
     """The ZID write-back (NewZorgNotesEvent handler) on page A while page B carries an edit no reindex has processed yet."""
     from .absval import HObj, Term
     from .virtual import vpath
 
-    q = f"{H}.add_zids_to_notes_in_file"
+    hs = event_handlers(model, "NewZorgNotesEvent")
+    if len(hs) != 1:
+        run.undecided(rid, "EVENT_HANDLERS", f"NewZorgNotesEvent has {len(hs)} registered handlers")
+        return
+    q = hs[0]
     fq = model.func(q)
     files = {"A.zo": "hA3", "B.zo": "hB2"}
     W = World(model, files=files, old_map={"A.zo": "hA2", "B.zo": "hB1"}, indexed={"A.zo", "B.zo"}, errors=set(), whitelist=[""], contents={"/Z/A.zo": "# T\n\n- new note\n"})
